@@ -73,11 +73,14 @@ def run_property(acc, strategy, check, nontrivial, n_examples, seed, shrink=True
         except BaseException as exc:     # noqa: BLE001
             # Hypothesis wraps a failure it cannot reproduce (library behaviour that depends on
             # earlier calls) in Flaky / FlakyFailure.  The violation was observed, so report it.
-            if state["last"] is not None and _is_flaky(exc):
-                case, v = state["last"]
-                acc.violation(case, Violation(v.kind, "[not reproducible on immediate re-execution: history dependent] " + v.detail))
-                suppressed.add(v.kind)
-                continue
+            if _is_flaky(exc):
+                if state["last"] is not None:
+                    case, v = state["last"]
+                    acc.violation(case, Violation(v.kind, "[not reproducible on immediate re-execution: history dependent] " + v.detail))
+                    suppressed.add(v.kind)
+                    continue
+                if suppressed:
+                    break            # non-determinism of an already reported violation; nothing new
             raise
         break
     return acc
@@ -113,11 +116,14 @@ def run_machine(acc, machine_factory, n_examples, steps, seed, shrink=True):
             suppressed.add(v.kind)
             continue
         except BaseException as exc:     # noqa: BLE001
-            if state["last"] is not None and _is_flaky(exc):
-                case, v = state["last"]
-                acc.violation(case, Violation(v.kind, "[not reproducible on immediate re-execution: history dependent] " + v.detail))
-                suppressed.add(v.kind)
-                continue
+            if _is_flaky(exc):
+                if state["last"] is not None:
+                    case, v = state["last"]
+                    acc.violation(case, Violation(v.kind, "[not reproducible on immediate re-execution: history dependent] " + v.detail))
+                    suppressed.add(v.kind)
+                    continue
+                if suppressed:
+                    break            # non-determinism of an already reported violation; nothing new
             raise
         break
     return acc
